@@ -14,6 +14,7 @@ mod c07;
 mod c09;
 mod c11;
 mod c12;
+mod c14;
 mod c15;
 mod c16;
 mod common;
@@ -92,6 +93,7 @@ fn main() {
         "C09" => c09::run(&ctx),
         "C11" => c11::run(&ctx),
         "C12" => c12::run(&ctx),
+        "C14" => c14::run(&ctx),
         "C15" => c15::run(&ctx),
         "C16" => c16::run(&ctx),
         _ => {
